@@ -52,6 +52,14 @@ DEMOS = {
     ("C05r2", "change2"): ("sh", "bash {out}/demo/run.sh 2>&1 | tail -25; exit ${PIPESTATUS[0]}", None),
     ("C07r2", "change1"): ("sh", "bash {out}/demo/run.sh 2>&1 | tail -25; exit ${PIPESTATUS[0]}", None),
     ("C07r2", "change2"): ("sh", "bash {out}/demo/run.sh 2>&1 | tail -25; exit ${PIPESTATUS[0]}", None),
+    ("C06r2", "change1"): ("sh", "bash {out}/demo/run.sh 2>&1 | tail -25; exit ${PIPESTATUS[0]}", None),
+    ("C06r2", "change2"): ("sh", "bash {out}/demo/run.sh 2>&1 | tail -25; exit ${PIPESTATUS[0]}", None),
+    ("C08r2", "change1"): ("sh", "bash {out}/demo/run.sh 2>&1 | tail -25; exit ${PIPESTATUS[0]}", None),
+    ("C08r2", "change2"): ("sh", "bash {out}/demo/run.sh 2>&1 | tail -25; exit ${PIPESTATUS[0]}", None),
+    ("C09r2", "change1"): ("sh", "bash {out}/demo/run.sh 2>&1 | tail -25; exit ${PIPESTATUS[0]}", None),
+    ("C09r2", "change2"): ("sh", "bash {out}/demo/run.sh 2>&1 | tail -25; exit ${PIPESTATUS[0]}", None),
+    ("C04r2", "change1"): ("sh", "bash {out}/demo/run.sh 2>&1 | tail -25; exit ${PIPESTATUS[0]}", None),
+    ("C04r2", "change2"): ("sh", "bash {out}/demo/run.sh 2>&1 | tail -25; exit ${PIPESTATUS[0]}", None),
     ("C01r2", "change1"): ("sh", "python3 {out}/demo/demo.py 2>&1 | tail -25; exit ${PIPESTATUS[0]}", None),
     ("C01r2", "change2"): ("sh", "python3 {out}/demo/demo.py 2>&1 | tail -25; exit ${PIPESTATUS[0]}", None),
 }
